@@ -64,7 +64,7 @@ def _model_pairs(cs: List[Dict[str, Any]]) -> None:
         raise core.MachineryError("Lattice model: no plain / extra-data scenario pairs")
 
 
-def run_case(c: Dict[str, Any]) -> Dict[str, Any]:
+def run_case(c: Dict[str, Any], keep_call: bool = False) -> Dict[str, Any]:
     """fire the scenario for real; returns observed rows etc."""
     m = impl.pb()
     U = m.Unit
@@ -91,6 +91,8 @@ def run_case(c: Dict[str, Any]) -> Dict[str, Any]:
         rec.remove()
     call = rec.calls[-1] if rec.calls else None
     out["its"] = len(call["iters"]) if call else -1
+    if keep_call:
+        out["call"] = call
     # lattice preconditions (exactness of the inputs after the unit system): else the scenario cannot be compared exactly
     if call:
         if call["consts"]["mv"] != 4.0:
@@ -169,7 +171,53 @@ def _same_contents(a: Dict[str, Any], b: Dict[str, Any]) -> bool:
             and close(a["dadj"], math.atan(y_ft / x_ft) if x_ft else 0.0))
 
 
+_applicable: Dict[str, Any] = {}
+
+
+def applicable(chk: core.Check) -> bool:
+    """The lattice world is an exact model of the tree's integration arithmetic.  It may only be used to judge the tree if
+    the PLAIN, unlimited computation obeys the lattice law (dt = calc_step / max(1, air speed), x += V dt, vy += g dt,
+    y += vy dt; semi-implicit Euler): three reference fires (calm, tail wind + gravity, head wind) are recorded and every
+    iteration compared exactly.  A tree that integrates differently (another scheme, another step law) is not wrong by any
+    listed property - the lattice replay is then skipped with a note and the other bindings decide."""
+    if "ok" in _applicable:
+        return _applicable["ok"]
+    refs = [dict(winds=[], grav=0), dict(winds=[[7, 100000]], grav=1), dict(winds=[[-8, 100000]], grav=0),
+            dict(winds=[[6, 16], [4, 32]], grav=0)]
+    why = None
+    for r in refs:
+        sc = dict(r, range=40, step=8, tstep=0, sight=16, drop=-64000, alt=-64000, vel=0, extra=False)
+        o = run_case({"sc": sc}, keep_call=True)
+        call = o.get("call")
+        if o["status"] != "Done" or not call or not call["iters"]:
+            why = f"reference fire {r} ended with {o['status']}"
+            break
+        g = -1.0 / 16.0 if r["grav"] else 0.0
+        for it in call["iters"]:
+            x = it["pre_r"].x
+            seg = [w for w in r["winds"] if w[1] / 4.0 > x]        # the law's own wind: first segment ending beyond x
+            w = (seg[0][0] / 2.0) if seg else 0.0
+            vy0 = it["pre_v"].y
+            air = math.sqrt((it["pre_v"].x - w) ** 2 + vy0 ** 2)
+            dt = 0.5 / max(1.0, air)
+            vy1 = vy0 + g * dt
+            if (it["pre_v"].x != 4.0 or it["dt"] != dt or it["post_r"].x != x + 4.0 * dt or it["post_v"].y != vy1
+                    or it["post_r"].y != it["pre_r"].y + vy1 * dt or it["post_t"] != it["pre_t"] + dt):
+                why = (f"reference fire {r}: iteration {it['i']} at x={x} does not follow the lattice law "
+                       f"(dt {it['dt']!r} vs {dt!r}, x' {it['post_r'].x!r}, vy' {it['post_v'].y!r} vs {vy1!r})")
+                break
+        if why:
+            break
+    _applicable["ok"] = why is None
+    if why:
+        chk.extra["lattice_world"] = "skipped: the tree's plain integration does not follow the lattice law - " + why
+        chk.assumptions.append("lattice replay skipped (integration arithmetic differs from the lattice law; not a listed property)")
+    return _applicable["ok"]
+
+
 def replay(chk: core.Check, prop: str, thorough: bool, every: int = 1) -> None:
+    if not applicable(chk):
+        return
     cs = cases(chk, thorough)
     n = 0
     for i, c in enumerate(cs):
